@@ -29,19 +29,22 @@ func (prop) ID() string { return "C16" }
 
 type run struct {
 	out core.Outcome
+	// at: appended to the name of every check ("@step3" inside a multi-step sequence); the failure
+	// signature stays free of it
+	at string
 }
 
 func (x *run) M(what, req, exp string) {
-	x.out.Checks = append(x.out.Checks, core.Check{Tag: "M", What: what, Req: req, Exp: exp})
+	x.out.Checks = append(x.out.Checks, core.Check{Tag: "M", What: what + x.at, Req: req, Exp: exp})
 }
 
 func (x *run) O(what, exp, got string) {
-	x.out.Checks = append(x.out.Checks, core.Check{Tag: "O", What: what, Exp: exp, Got: got, Sig: what})
+	x.out.Checks = append(x.out.Checks, core.Check{Tag: "O", What: what + x.at, Exp: exp, Got: got, Sig: what})
 }
 
 // OSig is O with an explicit failure-class signature (for known findings / replay dedup).
 func (x *run) OSig(what, sig, exp, got string) {
-	x.out.Checks = append(x.out.Checks, core.Check{Tag: "O", What: what, Exp: exp, Got: got, Sig: sig})
+	x.out.Checks = append(x.out.Checks, core.Check{Tag: "O", What: what + x.at, Exp: exp, Got: got, Sig: sig})
 }
 
 func okErr(err error) string {
@@ -256,6 +259,7 @@ func (prop) Gen(r *rand.Rand, tier string) []core.Case {
 	genCbnt(g, scale)
 	genManifest(g, scale)
 	genPsb(g, scale)
+	genResign(g, scale)
 	// every prefix of the list is a sample of all kinds (the tie-break search of ./check runs the
 	// thorough generator with a case limit)
 	r.Shuffle(len(g.cs), func(i, j int) { g.cs[i], g.cs[j] = g.cs[j], g.cs[i] })
@@ -270,6 +274,8 @@ func (prop) Run(c core.Case) core.Outcome {
 		runCbnt(x, c, thorough)
 	case "manifest":
 		runManifest(x, c.Args, thorough)
+	case "resign":
+		runResign(x, c.Args)
 	case "psbkey", "dbkey", "signedblob", "tokenkey", "pspentry", "firmware":
 		runPsb(x, c, thorough)
 	default:
